@@ -138,7 +138,7 @@ def bundler_forgotten_only_after_successful_close(ctx, rm: REModel, rule: str):
     from ..run_tail import OTEL_TOTAL
     h = rm.handler("close_run")
     g = C.build(h, rm.policy(extra_total=OTEL_TOTAL))
-    closes = [s for s in A.walk_stmts(h.node.body) if not isinstance(s, (ast.If, ast.Try, ast.With, ast.For)) and A.find_calls(s, "current_run.close_run")]
+    closes = [s for s in A.walk_stmts(h.node.body) if not isinstance(s, (ast.If, ast.Try, ast.With, ast.For)) and __import__("bsa.bidioms", fromlist=["x"]).bundler_method_calls(s, "close_run")]
     removes = [s for s in A.walk_stmts(h.node.body) if (isinstance(s, ast.Delete) and "self._run_bundlers" in A.norm(s)) or
                (not isinstance(s, (ast.If, ast.Try, ast.With, ast.For)) and any(A.call_name(c) in ("self._run_bundlers.pop", "self._run_bundlers.clear", "self._run_bundlers.popitem") for c in A.calls_in(s)))]
     if not closes or not removes:
